@@ -52,6 +52,12 @@ HOSTILE = ["(", ")", "[", "]", "[a", "[[:alpha:]", "[[:", "a{", "a{1", "a{1,", "
 
 def pattern_risky(p):
     """Reject patterns whose backtracking can be exponential (construction rule, counted)."""
+    from models import rxgen
+    try:
+        if rxgen.explosive(p):
+            return True
+    except Exception:
+        pass
     nq = sum(p.count(c) for c in "*+{")
     grp_q = any(p[i] == ")" and i + 1 < len(p) and p[i + 1] in "*+{?" for i in range(len(p)))
     if grp_q and nq > 1:
